@@ -30,5 +30,6 @@ def judge(prog: Any, ref: Any, run: dict[str, Any], info: dict[str, Any]) -> lis
 
 
 CHECK = DCheck("C05", PROFILE, judge, need_ref=False)
+CHECK.w_share = 0.2
 run_one = CHECK.run_one
 replay_one = CHECK.replay_one
